@@ -186,6 +186,20 @@ func enumTamper(c *enumCtx) {
 				}
 			}
 		}
+		// large values: every truncation length and every splice offset with the previous ciphertext
+		if via == "option" {
+			big := []int{40000}
+			if c.job.Thorough {
+				big = []int{40000, 70000, 140000}
+			}
+			for _, L := range big {
+				for _, mode := range []string{"trunc", "splice"} {
+					if c.mine() && !c.overBudget() {
+						c.run(sweepScenario(via, L, mode, c.job.SeedBase))
+					}
+				}
+			}
+		}
 		for _, mode := range []string{"rekey", "open-badkey"} {
 			for k := 0; k < 6; k++ {
 				if c.mine() {
@@ -211,6 +225,15 @@ func tamperScenario(via string, L int, mode string, k int, seed uint64) *Scenari
 	default:
 		ops = append(ops, SOp{Kind: "set-same", Key: 0}, SOp{Kind: "corrupt", Key: 0, Mode: mode, Arg: k}, SOp{Kind: "get", Key: 0}, SOp{Kind: "reopen"}, SOp{Kind: "get", Key: 0})
 	}
+	scn.SClients = []SClient{{Ops: ops}}
+	return scn
+}
+
+func sweepScenario(via string, L int, mode string, seed uint64) *Scenario {
+	scn := &Scenario{Profile: "enum-tamper", Seed: mix(seed, uint64(L*100000+7)), Engine: "ssim", Backend: "fsenc", EncVia: via, Logger: "discard"}
+	scn.Sched = kit.Sched{Strategy: "fifo"}
+	scn.Keys = []string{hexKey("http://a.test/r0/x#0")}
+	ops := []SOp{{Kind: "set", Key: 0, ValLen: L}, {Kind: "set", Key: 0, ValLen: L, Class: 1}, {Kind: "sweep", Key: 0, Mode: mode, Arg: 1}, {Kind: "get", Key: 0}}
 	scn.SClients = []SClient{{Ops: ops}}
 	return scn
 }
